@@ -62,6 +62,16 @@ def _resolve_function(project, func, name_node):
     return None
 
 
+# generators that are enumeration APIs in their own right (rules speak about loops over them) are not spliced into their callers
+KEEP_GENERATORS = ("generate_pos", "generate_tiles", "generate_tiles_filtered", "generate_populated_positions", "_postfix_pos", "_postfix_corner",
+                   "_generator", "_scan_hdus", "images", "descriptions")
+
+
+def splice(project, func):
+    sp = getattr(project, "spliced", None)
+    return sp(func, keep=KEEP_GENERATORS) if sp is not None else func
+
+
 def discover_stages(project):
     """Every function containing ``<mp>.Process(target=F, args=(...))``."""
     stages = []
@@ -70,11 +80,17 @@ def discover_stages(project):
                  and any(k.arg == "target" for k in c.keywords)]
         if not procs:
             continue
+        # loops over generator helpers (leaf iterators, receive loops) are analysed as the helper's own loop
+        f = splice(project, f)
+        procs = [c for c in own_calls(f.node) if callee_attr(c) == "Process"
+                 and any(k.arg == "target" for k in c.keywords)]
         for pc in procs:
             st = Stage(f)
             st.proc_call = pc
             tgt = [k.value for k in pc.keywords if k.arg == "target"][0]
             st.worker = _resolve_function(project, f, tgt)
+            if st.worker is not None:
+                st.worker = splice(project, st.worker)
             args = [k.value for k in pc.keywords if k.arg == "args"]
             if args and isinstance(args[0], ast.Name):
                 # args=<local name bound once to a tuple literal>
